@@ -38,10 +38,10 @@ func genErrorResponse(c *harness.Ctx, id int) *common.ErrorResponse {
 		e.Message = sp(fmt.Sprintf("message-%d \"quoted\" é", id))
 	}
 	if c.Bool("err-code") {
-		e.Code = sp(fmt.Sprintf("CODE_%d", id))
+		setOpt(e, "Code", sp(fmt.Sprintf("CODE_%d", id)))
 	}
 	if c.Bool("err-svc") {
-		e.ServiceErrorCode = ip(int32(1000 + id))
+		setOpt(e, "ServiceErrorCode", ip(int32(1000+id)))
 	}
 	if c.Bool("err-class") {
 		e.ExceptionClass = sp("com.example.Boom" + fmt.Sprint(id))
@@ -50,12 +50,12 @@ func genErrorResponse(c *harness.Ctx, id int) *common.ErrorResponse {
 		e.StackTrace = sp("at a.b.c(X.java:1)\n\tat d.e.f(Y.java:2)")
 	}
 	if c.Bool("err-details") {
-		e.ErrorDetails = &common.ErrorDetails{}
-		e.ErrorDetailType = sp("com.example.Details")
+		setOptNew(e, "ErrorDetails")
+		setOpt(e, "ErrorDetailType", sp("com.example.Details"))
 	}
 	if c.Bool("err-more") {
-		e.DocUrl = sp("http://doc/" + fmt.Sprint(id))
-		e.RequestId = sp("req-" + fmt.Sprint(id))
+		setOpt(e, "DocUrl", sp("http://doc/"+fmt.Sprint(id)))
+		setOpt(e, "RequestId", sp("req-"+fmt.Sprint(id)))
 	}
 	return e
 }
@@ -222,4 +222,21 @@ func methodClass(call *Call, w *World) string {
 		return "action"
 	}
 	return m
+}
+
+// setOpt sets an optional field of an error response if this module's ErrorResponse has it (the root module's
+// record has fewer fields than v2's; the scenario sources are shared between the two).
+func setOpt(e *common.ErrorResponse, field string, v interface{}) {
+	f := reflect.ValueOf(e).Elem().FieldByName(field)
+	if f.IsValid() && f.Type() == reflect.TypeOf(v) {
+		f.Set(reflect.ValueOf(v))
+	}
+}
+
+// setOptNew points a pointer-typed field, if there is one of that name, at a fresh zero value.
+func setOptNew(e *common.ErrorResponse, field string) {
+	f := reflect.ValueOf(e).Elem().FieldByName(field)
+	if f.IsValid() && f.Kind() == reflect.Ptr {
+		f.Set(reflect.New(f.Type().Elem()))
+	}
 }
